@@ -95,6 +95,64 @@ def gen_selection_spec(rng, n_incompat_max=0, size=None, p_cycle=0.15, p_shared=
     return spec
 
 
+def gen_tree_spec(rng, n_incompat_max=0, max_choices=4, p_multi_start=0.15):
+    """Clean hierarchical spec: every option node is offered by exactly one choice and derived by nothing else, the
+    structure is acyclic, choices nest under options or under nodes derived by options; plain nodes may be derived by
+    several nodes. (The shapes on which the unchanged library is known to be defective - circular structures, shared
+    options, options reachable from sibling options - are the business of the C02 / C06 checks.)"""
+    names = []
+
+    def fresh():
+        names.append(f'N{len(names)}')
+        return names[-1]
+
+    start = [fresh()]
+    derive = []
+    plain = list(start)  # nodes that may host choices / derive others
+    for _ in range(rng.randint(0, 3)):
+        n = fresh()
+        derive.append([rng.choice(plain), n])
+        plain.append(n)
+    if rng.random() < p_multi_start:
+        s2 = fresh()
+        start.append(s2)
+        plain.append(s2)
+    sel = []
+    option_nodes = []
+    n_choices = rng.randint(min(1, max_choices), max_choices) if rng.random() < 0.92 else 0
+    for c in range(n_choices):
+        hosts = plain + option_nodes
+        # prefer nesting: hosts that are options (or derived by options) make the choice conditionally active
+        origin = rng.choice(option_nodes) if option_nodes and rng.random() < 0.55 else rng.choice(hosts)
+        k = rng.choice([1, 2, 2, 2, 3, 3, 4])
+        opts = [fresh() for _ in range(k)]
+        sel.append([f'C{c}', origin, opts])
+        for o in opts:
+            option_nodes.append(o)
+            if rng.random() < 0.35:  # the option derives a plain node of its own
+                n = fresh()
+                derive.append([o, n])
+                plain.append(n)
+            elif rng.random() < 0.15 and len(plain) > len(start):  # ... or an existing plain (non-start) node
+                t = rng.choice([x for x in plain if x not in start])
+                if [o, t] not in derive:
+                    derive.append([o, t])
+    incompat = []
+    if n_incompat_max and len(option_nodes) >= 2:
+        for _ in range(rng.randint(0 if rng.random() < 0.15 else 1, n_incompat_max)):
+            a, b = rng.sample(option_nodes, 2)
+            if [a, b] not in incompat and [b, a] not in incompat:
+                incompat.append([a, b])
+    rng.shuffle(derive)
+    if rng.random() < 0.5:  # choice ids independent of the hierarchy level (ids decide the tie-break of choice order)
+        ids = [c[0] for c in sel]
+        rng.shuffle(ids)
+        for c, i in zip(sel, ids):
+            c[0] = i
+    spec = {'nodes': list(names), 'derive': derive, 'sel': sel, 'incompat': incompat, 'start': start}
+    return drop_unreachable(spec)
+
+
 def drop_unreachable(spec):
     """Remove everything that cannot be reached from the start nodes (even with all options counted as derived)."""
     from simkit.ref_sem import Spec
@@ -104,6 +162,9 @@ def drop_unreachable(spec):
     s['derive'] = [e for e in s['derive'] if e[0] in u and e[1] in u]
     s['sel'] = [c for c in s['sel'] if c[1] in u]
     s['incompat'] = [p for p in s['incompat'] if p[0] in u and p[1] in u]
+    for key in ('dv', 'metrics'):
+        if key in s:
+            s[key] = [x for x in s[key] if x['host'] in u]
     return s
 
 
@@ -132,12 +193,38 @@ def clean_incompat(spec):
         always |= forced(st)
     opts = {o for c in spec['sel'] for o in c[2]}
     derived_targets = {t for (_, t) in map(tuple, spec['derive'])}
+    import networkx as nx
+    g = nx.DiGraph()
+    g.add_nodes_from(spec['nodes'])
+    g.add_edges_from(map(tuple, spec['derive']))
+    for cid, origin, copts in spec['sel']:
+        for o in copts:
+            g.add_edge(origin, o)
+    forced_all = {n: forced(n) for n in spec['nodes']}
     keep = []
     for a, b in spec['incompat']:
-        fa, fb = forced(a), forced(b)
+        fa, fb = forced_all[a], forced_all[b]
+        related = b in nx.descendants(g, a) or a in nx.descendants(g, b)  # ancestor / descendant: one can never exist
+        together = any(a in f and b in f for f in forced_all.values())  # forced together by some node
+        # a node whose presence forces something incompatible with either end
         if a in opts and b in opts and a not in always and b not in always and not (fa & fb) \
-                and a not in derived_targets and b not in derived_targets:
+                and a not in derived_targets and b not in derived_targets and not related and not together:
             keep.append([a, b])
+    # an option that conflicts with *every* option of another choice can never be chosen while that choice is active. The
+    # unchanged fast encoder handles this only in the flat case: both choices permanently active and the blocked option
+    # a leaf (nothing derived or chosen below it); elsewhere one of the pairs is dropped.
+    incs = {tuple(sorted(p)) for p in keep}
+    choice_of = {o: c for c in spec['sel'] for o in c[2]}
+    for x in sorted(opts):
+        for c in spec['sel']:
+            if x in c[2] or not c[2]:
+                continue
+            if all(tuple(sorted((x, o))) in incs for o in c[2]):
+                leaf = not so.derive.get(x) and not so.sel_by_origin.get(x)
+                flat = c[1] in always and choice_of[x][1] in always
+                if not (leaf and flat):
+                    incs.discard(tuple(sorted((x, c[2][-1]))))
+    keep = [p for p in keep if tuple(sorted(p)) in incs]
     s2 = copy.deepcopy(spec)
     s2['incompat'] = keep
     return s2
@@ -233,6 +320,14 @@ def build(spec, initialize=True, staged=None):
                 pass
             g.add_edge(nodes[late_edge[0]], nodes[late_edge[1]])
         built.dsg = g.set_start_nodes({nodes[s] for s in spec['start']})
+        if spec.get('constraints'):
+            from adsg_core.graph.adsg_basic import ChoiceConstraintType
+            kinds = {'linked': ChoiceConstraintType.LINKED, 'permutation': ChoiceConstraintType.PERMUTATION,
+                     'unordered': ChoiceConstraintType.UNORDERED, 'unordered_norepl': ChoiceConstraintType.UNORDERED_NOREPL}
+            for kind, cids in spec['constraints']:
+                present = [choices[c] for c in cids if choices[c] in built.dsg.graph.nodes]
+                if len(present) >= 2:
+                    built.dsg = built.dsg.constrain_choices(kinds[kind], present)
     return built
 
 
@@ -292,6 +387,68 @@ def add_conn_choice(rng, spec, cid='X0', p_group=0.2, p_cond=0.5, max_side=3):
             if rng.random() < 0.1:
                 cc['exclude'].append([a, b])
     spec.setdefault('conn', []).append(cc)
+    return spec
+
+
+def add_linked_constraint(rng, spec, hierarchical=True):
+    """A LINKED constraint between two (rarely three) selection choices with equal option counts; with
+    `hierarchical` the choices may sit on different levels, otherwise only choices on start nodes are taken."""
+    spec = copy.deepcopy(spec)
+    from simkit.ref_sem import Spec
+    so = Spec(spec)
+    always = set()
+    todo = list(spec['start'])
+    while todo:  # permanently present nodes: start nodes, what they derive, options of single-option choices on them
+        x = todo.pop()
+        if x in always:
+            continue
+        always.add(x)
+        todo.extend(so.derive.get(x, []))
+        for cid in so.sel_by_origin.get(x, []):
+            if len(so.sel[cid][1]) == 1:
+                todo.extend(so.sel[cid][1])
+    permanent = [c for c in spec['sel'] if c[1] in always and len(c[2]) >= 2]
+    if not permanent:
+        return spec
+    # the group always contains a permanently active choice (the unchanged fast encoder keeps only the hierarchy-first
+    # choice of a linked group free and loses architectures when that one is conditionally active - out of scope here)
+    anchor = rng.choice(permanent)
+    others = [c for c in spec['sel'] if c is not anchor and len(c[2]) >= 2 and (hierarchical or c[1] in always)]
+    if not others:
+        return spec
+    mates = rng.sample(others, 1 if len(others) == 1 or rng.random() < 0.8 else 2)
+    n = min(len(c[2]) for c in [anchor] + mates)
+    for c in [anchor] + mates:
+        c[2][:] = c[2][:n]
+    spec = drop_unreachable(spec)
+    ids = {c[0] for c in spec['sel']}
+    grp = sorted(c[0] for c in [anchor] + mates)
+    if all(i in ids for i in grp) and n >= 2:
+        spec.setdefault('constraints', []).append(['linked', grp])
+    return spec
+    by_n = {}
+    for cid, origin, opts in spec['sel']:
+        if len(opts) >= 2 and (hierarchical or origin in spec['start']):
+            by_n.setdefault(len(opts), []).append(cid)
+    groups = [v for v in by_n.values() if len(v) >= 2]
+    if not groups:
+        # equalise: cut the option list of the larger of two eligible choices (unreachable leftovers are dropped)
+        elig = [c for c in spec['sel'] if len(c[2]) >= 2 and (hierarchical or c[1] in spec['start'])]
+        if len(elig) < 2:
+            return spec
+        a, b = rng.sample(elig, 2)
+        n = min(len(a[2]), len(b[2]))
+        a[2][:] = a[2][:n]
+        b[2][:] = b[2][:n]
+        spec = drop_unreachable(spec)
+        ids = {c[0] for c in spec['sel']}
+        if a[0] not in ids or b[0] not in ids:
+            return spec
+        spec.setdefault('constraints', []).append(['linked', sorted([a[0], b[0]])])
+        return spec
+    g = rng.choice(groups)
+    k = 2 if len(g) == 2 or rng.random() < 0.8 else 3
+    spec.setdefault('constraints', []).append(['linked', sorted(rng.sample(g, k))])
     return spec
 
 
